@@ -61,7 +61,7 @@ def strict_loads(line):
 class Run:
     started = 0
 
-    def __init__(self, binary, workdir, nsrc=1, window=150, args=(), serve=False, reference="43.6,1.36", tag="run"):
+    def __init__(self, binary, workdir, nsrc=1, window=150, args=(), serve=False, reference="43.6,1.36", tag="run", env_extra=None):
         self.binary, self.workdir, self.nsrc, self.window = binary, workdir, nsrc, window
         os.makedirs(workdir, exist_ok=True)
         self.cache = make_cache(os.path.join(workdir, "cache"))
@@ -89,6 +89,8 @@ class Run:
         env["RUST_BACKTRACE"] = "0"
         env.pop("JET1090_VERIF", None)
         env.pop("RUST_LOG", None)
+        env.pop("JET1090_CONFIG", None)
+        env.update(env_extra or {})
         # every second run is a user who asked for full logs (RUST_LOG=trace into a log file): every log statement of
         # the executable and of the library is then enabled and its arguments are evaluated
         Run.started += 1
@@ -433,18 +435,39 @@ def c11_scenario(rep, binary, workdir, rng, frame_maker, attempt=0):
     # history kept (default) so that GET /track shows what the filters let into it
     args = ["-o", out_file, "--history-expire", "600"]
     # multi-valued options are given once per value
+    # each filter is given on the command line or in the configuration file (JET1090_CONFIG): the four placements
+    # must select the same records
+    placement = {"df": rng.choice(["cli", "file"]), "ac": rng.choice(["cli", "file"])}
+    if df_filter is not None and ac_filter is not None and rng.random() < 0.6:
+        placement["ac"] = "file" if placement["df"] == "cli" else "cli"
+    cfg_lines = []
     if df_filter is not None:
-        for d in df_filter:
-            args += ["--df-filter", str(d)]
+        if placement["df"] == "cli":
+            for d in df_filter:
+                args += ["--df-filter", str(d)]
+        else:
+            cfg_lines.append("df_filter = [" + ", ".join(str(d) for d in df_filter) + "]")
     if ac_filter is not None:
         rng.shuffle(ac_filter)
-        for a in ac_filter:
-            args += ["--aircraft-filter", "%06x" % a]
+        if placement["ac"] == "cli":
+            for a in ac_filter:
+                args += ["--aircraft-filter", "%06x" % a]
+        else:
+            cfg_lines.append("aircraft_filter = [" + ", ".join('"%06x"' % a for a in ac_filter) + "]")
+    env_extra = None
+    if cfg_lines:
+        os.makedirs(workdir, exist_ok=True)
+        cfg = os.path.join(workdir, f"c11.{os.getpid()}.toml")
+        with open(cfg, "w") as f:
+            # the keys a configuration file must have, then the filters (the sources come from the command line)
+            f.write("verbose = false\ninteractive = false\nprevent_sleep = false\nupdate_position = false\n" + "\n".join(cfg_lines) + "\nsources = []\n")
+        env_extra = {"JET1090_CONFIG": cfg}
+    rep.cls("system:filters-given:" + "+".join(f"{k}:{placement[k]}" for k, v in (("df", df_filter), ("ac", ac_filter)) if v is not None) if (df_filter is not None or ac_filter is not None) else "system:filters-given:none")
     # the third sink: a Redis pub/sub channel (a stand-in server that keeps what is published)
     redis = FakeRedis()
     topic = "jet-%d" % rng.randrange(1000)
     args += ["--redis-url", f"redis://127.0.0.1:{redis.port}", "--redis-topic", topic]
-    run = Run(binary, workdir, nsrc=1, window=100, args=args, serve=True, tag="c11sys")
+    run = Run(binary, workdir, nsrc=1, window=100, args=args, serve=True, tag="c11sys", env_extra=env_extra)
     tracks = {}
     try:
         order = [f[1] for f in frames]
